@@ -6,7 +6,7 @@ sees <zone>. Independent reference for offsets / existence of local times: `zone
 TZif file itself) cross-checked with the C library (`time.mktime` / `time.localtime`).
 
 request kinds
-  {"kind":"rt","args":[y,mo,d,h,mi,s,ms]}     datetimeNew -> datetimeISOFormat -> datetimeISOParse round trip
+  {"kind":"rt","args":[y,mo,d,h,mi,s,ms],"us":0..999}   datetimeNew (+ optional extra microseconds) -> datetimeISOFormat -> datetimeISOParse
   {"kind":"parse","text":"..."}                 datetimeISOParse of arbitrary text (+ reference offset if the text is a valid ISO datetime)
   {"kind":"arith","args":[...],"n":int,"as_int":bool}   (d + n) - d through evaluate_expression
 """
@@ -168,6 +168,9 @@ def handle(req):
         if d is None:
             return {'d': None, 'err': err}
         out = {'d': parts(d)}
+        if req.get('us'):
+            # a datetime with sub-millisecond precision, as datetimeNow() or the host can produce; `d` stays the value cut to the millisecond
+            d = d.replace(microsecond=d.microsecond + req['us'])
         text, err = call('datetimeISOFormat', [d])
         out['text'] = text if isinstance(text, str) else {'error': str(err or type(text).__name__)}
         dtext, err = call('datetimeISOFormat', [d, True])
